@@ -439,6 +439,11 @@ type c10Witness struct {
 func c10Check(c *core.Ctx, cs c10Case) {
 	prefix := []string{"||h.example^$dnsrewrite=", "@@||h.example^$dnsrewrite=", "||h.example^$important,dnsrewrite="}[c.Rng.Intn(3)]
 	text := prefix + cs.Value
+	if !strings.ContainsAny(cs.Value, ",$\\") && c.Rng.Intn(3) == 0 {
+		// $dnsrewrite need not be the last modifier of its rule.
+		text += []string{",dnstype=A", ",client=127.0.0.1", ",important", ",dnstype=~AAAA,important"}[c.Rng.Intn(4)]
+		c.Event("values_followed_by_another_modifier", 1)
+	}
 	w := c10Witness{Rule: text, Value: cs.Value, Note: cs.Note}
 	var r1, r2 *rules.NetworkRule
 	var e1, e2 error
@@ -481,6 +486,11 @@ func c10Check(c *core.Ctx, cs c10Case) {
 		// A '$' or ',' in the value moved the options delimiter or split the
 		// value: the text is a rule without a $dnsrewrite modifier.
 		c.Inconclusive("value-changes-the-option-syntax")
+
+		return
+	}
+	if d == nil {
+		c.Violation("rule-accepted-without-its-rewrite", nil, w, "rule %q accepted, but it carries no rewrite (value %q, %s)", text, cs.Value, cs.Note)
 
 		return
 	}
